@@ -71,7 +71,7 @@ class HsSock(object):
             self.inner.link.activity += 1
             if self.dead == "eof":
                 return b""
-            raise socket.error(errno.ECONNRESET, "Connection reset by peer")
+            raise _conn.transport_error("reset" if self.dead == "pipe" else self.dead)
         r = self.inner.recv(n)
         self.log.append(("recv", idx, "r"))
         return r
@@ -83,7 +83,7 @@ class HsSock(object):
         if self.dead:
             self.inner.send_calls += 1
             self.inner.link.activity += 1
-            raise socket.error(errno.ECONNRESET if self.dead == "reset" else errno.EPIPE, "transport dead")
+            raise _conn.transport_error("pipe" if self.dead == "eof" else self.dead)
         k = "f" if meth == "sendall" else ("h" if self.cur_ct == 22 else "o")
         self.log.append(("send", idx, k))
         return getattr(self.inner, meth)(data)
@@ -237,11 +237,12 @@ def handshake_faults(ctx, lc):
         ctx.count("flavour:" + fl.name)
         for who in ("client", "server"):
             rsteps, ssteps = steps_of(socks0[who].log)
-            for kind, steps, whats in (("recv", rsteps, ("eof", "reset")), ("send", ssteps, ("pipe", "reset", "eof"))):
+            for kind, steps, whats in (("recv", rsteps, ("eof", "reset", "timeout")),
+                                       ("send", ssteps, ("pipe", "reset", "eof", "timeout"))):
                 for i in range(len(steps)):
                     for what in whats:
-                        if not thorough and kind == "send" and what == "reset" and fl.chunk:
-                            continue
+                        if not thorough and what in ("reset", "timeout") and fl.chunk and (i + len(what)) % 3:
+                            continue      # quick tier: every kind at every third index of the chunked runs
                         if fl.opt.get("resume") == "id":
                             session = fl.original_session() if session is None or not session.resumable else session
                         L, socks = fl.run(fault=(who, kind, i, what), session=session)
@@ -277,7 +278,7 @@ def handshake_faults(ctx, lc):
                         for key, what_ in probs:
                             ctx.violation(key, "%s, fault %s at %s call %d of the %s: %s" % (fl.name, what, kind, i, who, what_), case)
                         # ---- model
-                        model_lines.append("hsfault %s %d %s -" % (steps, i, what))
+                        model_lines.append("hsfault %s %d %s -" % (steps, i, "reset" if what == "timeout" else what))
                         model_expect.append((case, "%s closed=%d res=%d complete=%d" % (
                             dx["exc"] if dx["state"] == "error" else "none", dx["closed"],
                             0 if dx["session"] is None else int(dx["session"]), int(dx["state"] == "done"))))
@@ -445,7 +446,15 @@ class DataOracle(object):
                     if any(it[2] == d and it[1] == 1 for it in sent):
                         self.stream[self.peer(w)].append(("alert", 1, 0))  # warnings are answered with close_notify
                 elif cls in ("abrupt_close", "socket_error"):
-                    pass
+                    # everything the peer sent up to and including a close_notify is delivered before the transport
+                    # error shows (the queued bytes are read first): then the read must end the orderly way even if
+                    # our own close_notify reply cannot be sent
+                    items = self.stream[w]
+                    k = next((n for n, it in enumerate(items) if it[0] == "alert" and it[2] == 0), None)
+                    if not was_closed and k is not None and all(it[0] == "data" for it in items[:k]):
+                        self.problems.append(("c17:close-notify-reply-failure-not-forgiven",
+                                              "op %d: the peer's close_notify was received but read raised %s (transport of %s: %s)"
+                                              % (idx, cls, w, self.dead[w])))
                 elif cls.startswith("local_alert:"):
                     if self.cfg.get("honest_traffic", True):
                         self.problems.append(("c17:local-alert-on-honest-traffic", "op %d: read raised %s" % (idx, cls)))
@@ -479,7 +488,7 @@ class DataOracle(object):
             if not self.dead[w] and w not in self.closed_by:
                 self.stream[self.peer(w)].append(("alert", op[3], op[4]))
         elif name == "kill":
-            self.dead[w] = "eof" if op[2] == 1 else "reset"
+            self.dead[w] = "rx=%s tx=%s" % ("eof" if op[2] == 1 else (op[4] if len(op) > 4 else "reset"), op[3] if len(op) > 3 else "pipe")
         elif name == "abort":
             self.dead[w] = "abort"
             self.stream[self.peer(w)].append(("eof",))
@@ -493,7 +502,7 @@ class DataOracle(object):
         if name == "read" and kind == "ok" and conn.closed and not was_closed:
             # legitimate only through close_notify, or EOF with ignoreAbruptClose
             got_cn = any(it[0] == "alert" and it[2] == 0 for it in self.stream[w])
-            eof = any(it[0] == "eof" for it in self.stream[w]) or self.dead[w] in ("eof",)
+            eof = any(it[0] == "eof" for it in self.stream[w]) or (self.dead[w] or "").startswith("rx=eof")
             if got_cn:
                 self.closed_by[w] = "close_notify"
                 self.orderly[w] = True
@@ -526,7 +535,8 @@ def data_cfgs(rng, n):
 def placement_histories(ctx):
     """every placement of an alert / abort relative to three writes, then the receiver reads it all"""
     events = [("alert", 1, 0), ("alert", 2, 0), ("alert", 2, 40), ("alert", 2, 20), ("alert", 1, 90), ("alert", 1, 100),
-              ("abort",), ("kill", 1), ("kill", 2), ("close",)]
+              ("abort",), ("kill", 1, "pipe"), ("kill", 2, "reset"), ("kill", 1, "reset"), ("kill", 2, "timeout", "timeout"),
+              ("close",)]
     reads = [[(None, 1)] * 6, [(2, 2)] * 8, [(None, 0)] * 6, [(None, 9)] * 4]
     for ev in events:
         for pos in range(4):
@@ -540,7 +550,7 @@ def placement_histories(ctx):
                             if ev[0] == "alert":
                                 ops.append((w, "inject") + ev)
                             elif ev[0] == "kill":
-                                ops.append((o, "kill", ev[1]))      # the READER's transport dies
+                                ops.append((o,) + ev)               # the READER's transport dies
                             else:
                                 ops.append((w,) + ev)
                         if k < 3:
@@ -561,7 +571,9 @@ def fault_histories(rng, n):
         for k in range(m):
             w = rng.choice("cs")
             if k == cut:
-                ops.append((rng.choice("cs"),) + rng.choice([("kill", 1), ("kill", 2), ("abort",)]))
+                ops.append((rng.choice("cs"),) + rng.choice([("kill", 1, "pipe"), ("kill", 2, "reset"), ("kill", 1, "reset"),
+                                                              ("kill", 1, "timeout"), ("kill", 2, "eio", "eio"),
+                                                              ("kill", 2, "pipe", "timeout"), ("abort",)]))
             x = rng.random()
             if x < 0.4:
                 ops.append((w, "write", rb(rng, rng.choice([0, 1, 5, 40]))))
@@ -617,6 +629,43 @@ def cfg_unjson(j):
     return {k: (tuple(v) if isinstance(v, list) else v) for k, v in j.items()}
 
 
+def close_reply_cases(ctx, lc):
+    """the peer closes in order (close_notify), our own transport can no longer send: for every kind of
+    send failure the lab supports the read must still end the orderly way (buffered data, then b''),
+    the session stays resumable"""
+    kinds = [(tx, rx) for tx in ("pipe", "reset", "timeout", "eio") for rx in ((1,), (2, "reset"), (2, "timeout"))]
+    vers = [(3, 4), (3, 3), (3, 1), (3, 0)] if ctx.thorough() else [(3, 4), (3, 3)]
+    for ver in vers:
+        for cs in ((True, True), (False, False)):
+            for tx, rx in kinds:
+                for closer in "cs":
+                    for how in ("close", "alert"):
+                        for kill_first in (True, False):
+                            o = "s" if closer == "c" else "c"
+                            cfg = dict(ver=ver, client_cert=False, tickets=0, hb=False, close_socket=cs,
+                                       cipher=None if ver >= (3, 3) else "aes128")
+                            kill = (o, "kill", rx[0], tx) + tuple(rx[1:])
+                            fin = (closer, "close") if how == "close" else (closer, "inject", "alert", 1, 0)
+                            ops = [(closer, "write", b"last words")]
+                            ops += [kill, fin] if kill_first else [fin, kill]
+                            ops += [(o, "read", 4, 1), (o, "read", None, 1), (o, "read", None, 1), (o, "read", None, 0)]
+                            r = run_data(ctx, lc, cfg, ops, "close-reply")
+                            ctx.count("close-reply:tx-%s" % tx)
+                            if r is None:
+                                continue
+                            cn, orc, impl = r
+                            conn = cn.conn(o)
+                            outs = [line.split()[0] for line in impl[3:]]
+                            ok = all(x.startswith("bytes:") for x in outs) and outs[-1] == "bytes:-" and \
+                                "".join(x[6:] for x in outs if x != "bytes:-") == b"last words".hex()
+                            if not ok or not conn.closed or not conn.session.resumable:
+                                ctx.violation("c17:close-notify-reply-failure-not-forgiven",
+                                              "%s after close_notify with own sends failing (%s, receive side %r): reads gave %r, closed=%s, "
+                                              "resumable=%s; expected the buffered data, then b'', session resumable"
+                                              % (cn.c.getVersionName() or ver, tx, rx, outs, conn.closed, conn.session.resumable),
+                                              {"stage": "close-reply", "cfg": cfg_json(cfg), "ops": [op_json(x) for x in ops]})
+
+
 def keyed_cases(ctx, lc):
     """the deviations found earlier (repaired in /repo), kept as directed oracle cases"""
     base = dict(ver=(3, 4), client_cert=True, tickets=0)
@@ -663,6 +712,7 @@ def run(ctx):
     lc = ctx.lean()
     rng = ctx.rng
     keyed_cases(ctx, lc)
+    close_reply_cases(ctx, lc)
     handshake_faults(ctx, lc)
     handshake_alerts(ctx, lc)
     cfgs = list(data_cfgs(rng, ctx.pick(3, 8)))
